@@ -636,8 +636,9 @@ def run(ctx, replay=None):
         "identity of a packet = identity of the Python object; the identifying fields compared are packet_id, flow_id, src, "
         "size, time and payload",
         "the model is untimed: when a packet leaves is decided by C09-C15, here only that it leaves, once, in flow order, "
-        "unchanged, or is discarded by a documented rule (wire loss decided by the scripted draw against the loss rate, "
-        "either outcome at equality)",
+        "unchanged, or is discarded by a documented rule (the number of wire losses is decided by the scripted draws against "
+        "the loss rate, either outcome at equality; which packets were lost is inferred from overtaking inside the wire or "
+        "from what is left at the end)",
         "generator / sink instants lie on a quarter-tick lattice; what `finish` means for a packet whose predecessor was "
         "emitted before and which is itself due at or after the finish time is left open (either), as is the first "
         "inter-arrival entry of a key (gap from time 0, or 0)"])
